@@ -79,6 +79,7 @@ func vfEchoUnaryHandler(srv interface{}, ctx context.Context, dec func(interface
 // client must get exactly the reply to its own request - pooled buffers must not carry bytes from
 // one request into the other under any schedule within the context bound.
 func VerifH_conc_requests() {
+	vfRaceDetect()
 	vfPreemptions(vfBound(2, 3))
 	in := schemaRoute()
 	out := newFakeMD("vf.Resp", strField("r"))
